@@ -241,8 +241,9 @@ End Hier.
 (* 3. BoundedIterator: start inclusive, end exclusive; None = no bound (nil)               *)
 (* ------------------------------------------------------------------------------------ *)
 
-(* which BoundedIterator.Seek the tree has (see b_seek_gen): false = pinned code (defect D25) *)
-Definition bounded_seek_miss_moves : bool := false.
+(* which BoundedIterator.Seek the tree has (see b_seek_gen): false = the pinned code (defect
+   D25), true = since the repair "a failed bounded Seek leaves the iterator invalid" *)
+Definition bounded_seek_miss_moves : bool := true.
 
 Section Bounded.
   Context {S : Type} (I : Iter S) (lo hi : option bytes).
@@ -284,9 +285,10 @@ Section Bounded.
       else (s, lastk)
     end.
 
-  (* SeekToLast as it has to behave (greatest key k with start <= k < end, invalid if there is
-     none): with an end bound, scan from the first key for the last key below it and seek
-     there; the repair of bounded.go that is under way is observationally this. *)
+  (* SeekToLast (greatest key k with start <= k < end, invalid if there is none): with an end
+     bound, walk forward for the last key below it and seek there. The repaired bounded.go
+     starts the walk at Seek(start) instead of SeekToFirst, which is observationally the same
+     (the position before the walk is not observable and the result is re-sought). *)
   Definition b_last (s : S) : S :=
     match hi with
     | Some e =>
@@ -299,8 +301,8 @@ Section Bounded.
     | None => i_last I s
     end.
 
-  (* SeekToLast of the pinned tree (defect D24): backs up only when Seek(end) lands on a key
-     EQUAL to the end bound. Kept for the refutation example in IterProofs.v. *)
+  (* SeekToLast of the pinned tree (defect D24, repaired since): backs up only when Seek(end)
+     lands on a key EQUAL to the end bound. Kept for the refutation example in ScanProofs.v. *)
   Definition b_last_pinned (s : S) : S :=
     match hi with
     | Some e =>
